@@ -218,12 +218,23 @@ def run(ctx):
                "; ".join(problems) + (": a redirect that changes only the scheme, host or port would count as same origin" if problems else ""), witness=r.witness(), node=ish.node)
     ctx.sites(R4, n_cmp, 6, "comparing rows of is_same_host")
     cpi = m.method(f"{CP}.ConnectionPool", "__init__")
-    rows_i = [r for r in effect_rows(ctx, cpi, GenRule(ctx, cpi.module), f"{CP}.ConnectionPool") if r.returns]
+    # private helpers in place: whatever the pool-level wrapper is called, the stored host is the URL-level normaliser's result
+    # for the given host (with or without its IPv6 brackets) - the value is_same_host compares against
+    from ..rows import helper_closure as _hc6
+    from ..terms import subterms as _sub6
+    rows_i = [r for r in effect_rows(ctx, cpi, GenRule(ctx, cpi.module, inline=frozenset(_hc6(m, [cpi]) - {cpi.qual})), f"{CP}.ConnectionPool") if r.returns]
     ctx.sites(R4, len(rows_i), 1, "returning rows of ConnectionPool.__init__")
+    seen_h = set()
     for r in rows_i:
         st_ = [e_[3] for e_ in r.events("store") if e_[1] == "self" and e_[2] == "host"]
-        ok = bool(st_) and destruct(st_[-1])[0] == "_normalize_host" and destruct(st_[-1])[1][:1] == ("p:host",)
-        ctx.ob(R4, cpi.qual, "the pool's host is normalised with _normalize_host", ok, f"self.host = {st_[-1] if st_ else '?'}", witness=r.witness(), node=cpi.node)
+        final = st_[-1] if st_ else None
+        if final in seen_h:
+            continue
+        seen_h.add(final)
+        norms = [x_ for x_ in set(_sub6(final or "")) if destruct(x_)[0] in ("url._normalize_host", "normalize_host", "_normalize_host") and destruct(x_)[1][:1] == ("p:host",)]
+        atoms = {x_ for x_ in set(_sub6(final or "")) if destruct(x_)[0] is None and x_.startswith(("p:", "self."))}
+        ok = bool(norms) and atoms <= {"p:host", "p:scheme", "self.scheme"}
+        ctx.ob(R4, cpi.qual, "the pool's host is the normalised form of the given host", ok, f"self.host = {final[:120] if final else '?'}", witness=r.witness(), node=cpi.node)
     pbs = fold.need("urllib3.connection", "port_by_scheme")
     ctx.ob(R4, "urllib3.connection", "default ports: http 80, https 443", pbs == {"http": 80, "https": 443}, str(pbs))
 
